@@ -37,11 +37,26 @@ MANIFEST = {
             "user's own request is outstanding. The unrestricted statements are false of the code: four witness theorems, "
             "replayed on the real component as known findings (grammar_alternation_witness needs no stalled close, "
             "only a task that is not polled: finding late-closed-report). "
+            "Coverage round: the handle's batch commands (Model/Notif/Handle.lean: one command for a set of peers, the "
+            "protocol walks the set in ANY order) - every peer of a batch makes exactly the step of a single open request, "
+            "peers with a stream are reported/ignored, the others are untouched (batch_open_answers_each, "
+            "batch_open_answered_once, batch_results); the handshake service (Model/Notif/Handshake.lean: entries with their "
+            "four states, timer first, pop_event first, any hash-map order) - a handshake above the configured maximum is "
+            "refused when read and when sent, never truncated, whatever is handed to the protocol is within the limit and is "
+            "exactly the first unread frame of that entry's substream (handshake_bounded, handshake_exact, "
+            "handshake_poll_order); handshake_stale_result_witness = the defect repaired in this round (a queued result "
+            "survived the removal of its substream and was attributed to the peer's next substream). "
             "Tie: seeded operation histories (2-3 peers, with/without auto-accept, simultaneous opens, rejections, "
             "handshake failures, substream open failures, drops and reconnects, timers, stalled closes, connection tasks "
             "held back by the scheduler across disconnect/reconnect/new negotiation) run on the real "
             "NotificationProtocol/NotificationHandle and on the model, every observation compared incl. internal peer "
-            "states; independent user-event-grammar oracle. Composition of tasks: an invariant proof over all schedules is "
+            "states; also: open/close batches (set order taken from the implementation, any permutation accepted), sink "
+            "clones used after close/reopen, handle async send, set_handshake, handshakes at/above the limit in both "
+            "directions, handshake timers, full command channels (handle->protocol, protocol->connection), the protocol "
+            "loop held back so that its inputs pile up, handle dropped => run() returns; independent user-event-grammar oracle "
+            "(plus: one answer per peer of a batch, no send accepted through a sink taken before a NotificationStreamClosed "
+            "the user has seen, no handshake/notification above the limit, a substream's first frame is never delivered as "
+            "a notification). Composition of tasks: an invariant proof over all schedules is "
             "the right level (the unit tests drive single transitions).",
     "note": "Trusted: Lean kernel; axioms propext/Classical.choice/Quot.sound; the hand-written model and its sampled tie; "
             "tokio mpsc FIFO; the transport obeys C08 (events only for connected peers, one answer per substream request); "
@@ -49,7 +64,9 @@ MANIFEST = {
     "technique": "Lean 4 proof (invariants of a labelled transition system) + model/implementation correspondence check",
     "design_ref": "DESIGN.md §7 C11, §8-j, §8-q; notes/selftest-C11.md (late-closed-report)",
 }
-RULE = ("seeded histories of transport events (conn/disc/dialfail/subout/subfail/subin), remote actions on in-memory "
+RULE = ("(coverage round: + openb/tryopenb/closeb/tryclosb, sink/ssend/sasend/sdrop/asend, seths, hstimeout, cfill/cdrain, "
+        "cmdhold/cmdfill/cmdrelease, phold/prelease, shutdown) "
+        "seeded histories of transport events (conn/disc/dialfail/subout/subfail/subin), remote actions on in-memory "
         "substreams (handshake, close, reset, read, notification, stalled close), user commands (open/close/accept/"
         "reject/send/events), scheduling commands (hold/unhold the Connection tasks of a peer) and timer expiries over 2-3 peers run on the real NotificationProtocol+Handle and on the "
         "Lean model; a case is non-trivial if at least one stream was opened or one open failure was reported; "
@@ -60,7 +77,12 @@ TRUSTED_BASE = ["Lean 4.33 kernel", "axioms: propext, Classical.choice, Quot.sou
                 "adapter /repo/src/verif/c11.rs + verif/io.rs (in-memory substreams), harness, verif.py, checks/c11.py",
                 "tokio mpsc channels are FIFO; biased select order mirrored by the driver's scheduler",
                 "futures_timer::Delay replaced by explicit timer events (any time: over-approximation)",
-                "transport events obey the C08 grammar (proved separately for TransportService)"]
+                "transport events obey the C08 grammar (proved separately for TransportService)",
+                "Model/Notif/{Handle,Handshake}.lean tied by the same run (the driver computes the batch results with "
+                "NotifHandle.* and polls the handshake service with NotifHs.poll on the entries loaded from its pipes)",
+                "hook HandshakeService::verif_timer (cfg litep2p_verif): lets one entry's futures_timer::Delay expire",
+                "events of DIFFERENT peers drained by one `events` are compared per peer (HashMap iteration order of one "
+                "handshake poll); the iteration order of an OpenSubstream peer set is read from the implementation"]
 ASSUMPTIONS = ["the transport answers each substream request at most once and only while the peer is connected (C08)",
                "partial theorems: a Connection task that has entered close_connection finishes (notice + closed report) "
                "before the protocol handles the next event for that peer (false only if Substream::close() stays pending)",
@@ -73,7 +95,11 @@ ASSUMPTIONS = ["the transport answers each substream request at most once and on
                "substream (validation answers are keyed by peer, not by substream)",
                "open_answered_once counts the user's own Reject of the peer's inbound substream as the answer to the "
                "user's outstanding open request (the code reports nothing in that case)",
-               "every spawned future is eventually polled; Substream::close() eventually completes"]
+               "every spawned future is eventually polled; Substream::close() eventually completes",
+               "adapter restrictions (schedules not explored): while a peer's connection task is held the user does not "
+               "mix sync and async sends towards it (select! order; C12's subject); a connection established while the "
+               "protocol loop is held is not closed before the loop has seen it",
+               "batch theorems: the per-peer worlds do not interact (all maps are keyed by peer or by a fresh substream id)"]
 KEEP_PREFIX = 1
 CONST_TABLE = [
     ("DEFAULT_CHANNEL_SIZE", "src/lib.rs", r"const DEFAULT_CHANNEL_SIZE: usize = ([^;]+);", 4096),
